@@ -9,11 +9,18 @@ import (
 	"rainverif/checker/kit"
 )
 
-// verifiedWriteFlows returns the two flows "pw.HashOK==true" and
-// "pw.Error==nil" for fn.
-func verifiedWriteFlows(c *kit.Ctx, fn *ssa.Function, fHashOK, fError *types.Var) (hashOK, errNil *kit.Flow) {
-	return c.FieldBool(fn, fHashOK, true), c.FieldNil(fn, fError, true)
+// verifiedWrite holds the two function-agnostic facts "pw.HashOK==true" and
+// "pw.Error==nil". They are evaluated with caller context (Spec.Holds), so a
+// sink may sit in a helper called from the write-done handler after the
+// checks.
+type verifiedWrite struct{ hashOK, errNil *kit.Spec }
+
+func newVerifiedWrite(c *kit.Ctx, fHashOK, fError *types.Var) *verifiedWrite {
+	return &verifiedWrite{c.FieldBoolSpec(fHashOK, true, kit.DefaultDeep), c.FieldNilSpec(fError, true, kit.DefaultDeep)}
 }
+
+func (v *verifiedWrite) hash(ins ssa.Instruction) bool { return v.hashOK.Holds(ins, 2) }
+func (v *verifiedWrite) err(ins ssa.Instruction) bool  { return v.errNil.Holds(ins, 2) }
 
 func isBuiltin(cc *ssa.CallCommon, name string) bool {
 	if cc == nil {
@@ -36,6 +43,12 @@ func runC01Marks(c *kit.Ctx, k *keyer, fHashOK, fError *types.Var, verifyHash *t
 	bfNewBytes := c.FuncObj("internal/bitfield", "NewBytes")
 	bfPkg := c.Pkg("internal/bitfield").Pkg.Path()
 	newTorrent := c.Func("torrent", "newTorrent")
+	vw := newVerifiedWrite(c, fHashOK, fError)
+	// the index is the written piece's Index, directly or as the argument bound
+	// to a helper's parameter at every call site
+	isPieceIndex := func(v ssa.Value) bool {
+		return c.HoldsForValue(v, 2, func(x ssa.Value) bool { return kit.Canon(x).IsField(fIndex) })
+	}
 
 	// flow "t.bitfield.Test(x) == true" with x rendered; returns checker
 	// for a given index expression string.
@@ -65,12 +78,11 @@ func runC01Marks(c *kit.Ctx, k *keyer, fHashOK, fError *types.Var, verifyHash *t
 		case recv.IsField(fTBitfield):
 			nT++
 			key := k.key(s.Fn, "Set torrent.bitfield")
-			h, e := verifiedWriteFlows(c, s.Fn, fHashOK, fError)
-			if !h.Before(s.Instr) {
+			if !vw.hash(s.Instr) {
 				c.Bad("R01.4", key, posOf(s.Instr), "torrent bitfield bit set without HashOK==true on every path")
-			} else if !e.Before(s.Instr) {
+			} else if !vw.err(s.Instr) {
 				c.Bad("R01.4", key, posOf(s.Instr), "torrent bitfield bit set without the write result Error==nil on every path")
-			} else if !(idx.IsField(fIndex)) {
+			} else if !isPieceIndex(argOf(s.Instr.Common(), 1)) {
 				c.Bad("R01.4", key, posOf(s.Instr), "bit index %s is not the written piece's Index", idx)
 			} else {
 				c.OK("R01.4", key, posOf(s.Instr), "Set(%s) under pw.HashOK==true && pw.Error==nil", idx)
@@ -146,8 +158,7 @@ func runC01Marks(c *kit.Ctx, k *keyer, fHashOK, fError *types.Var, verifyHash *t
 		case v.IsCallTo(bfTest) && v.Args[0].IsField(fTBitfield):
 			c.OK("R01.4", key, posOf(st.Store), "Done copied from torrent.bitfield.Test(%s)", v.Args[1])
 		case v.IsConstBool(true):
-			h, e := verifiedWriteFlows(c, st.Fn, fHashOK, fError)
-			if h.Before(st.Store) && e.Before(st.Store) {
+			if vw.hash(st.Store) && vw.err(st.Store) {
 				c.OK("R01.4", key, posOf(st.Store), "Done=true under pw.HashOK==true && pw.Error==nil")
 				break
 			}
@@ -167,6 +178,12 @@ func runC01Marks(c *kit.Ctx, k *keyer, fHashOK, fError *types.Var, verifyHash *t
 	fHaveIdx := c.Field("internal/peerprotocol", "HaveMessage", "Index")
 	tAllowedFast := c.Named("internal/peerprotocol", "AllowedFastMessage")
 	nH := 0
+	setCalled := &kit.Spec{P: c.Prog, Deep: kit.DefaultDeep, Instr: func(ins ssa.Instruction, in bool) bool {
+		if kit.CallsAny(ins, bfSet) && kit.Canon(argOf(kit.CallOf(ins), 0)).IsField(fTBitfield) {
+			return true
+		}
+		return in
+	}}
 	for _, st := range fieldStores(c, fHaveIdx) {
 		if literalOnlyNestedIn(st.Store.Addr, tAllowedFast) {
 			continue // AllowedFastMessage embeds HaveMessage: not a have announcement
@@ -174,14 +191,7 @@ func runC01Marks(c *kit.Ctx, k *keyer, fHashOK, fError *types.Var, verifyHash *t
 		nH++
 		key := k.key(st.Fn, "build HaveMessage")
 		idx := kit.Canon(st.Val)
-		h, e := verifiedWriteFlows(c, st.Fn, fHashOK, fError)
-		setCalled := (&kit.Flow{P: c.Prog, Fn: st.Fn, Instr: func(ins ssa.Instruction, in bool) bool {
-			if kit.CallsAny(ins, bfSet) && kit.Canon(argOf(kit.CallOf(ins), 0)).IsField(fTBitfield) {
-				return true
-			}
-			return in
-		}}).Solve()
-		if h.Before(st.Store) && e.Before(st.Store) && setCalled.Before(st.Store) {
+		if vw.hash(st.Store) && vw.err(st.Store) && setCalled.Holds(st.Store, 2) && isPieceIndex(st.Val) {
 			c.OK("R01.4", key, posOf(st.Store), "Have{%s} built after bitfield.Set under a verified write result", idx)
 		} else if testTrue(st.Fn, idx).Before(st.Store) {
 			c.OK("R01.4", key, posOf(st.Store), "Have{%s} built under torrent.bitfield.Test(same index)==true", idx)
@@ -201,13 +211,15 @@ func runC01Marks(c *kit.Ctx, k *keyer, fHashOK, fError *types.Var, verifyHash *t
 			return a.IsFalse(func(e *kit.Expr) bool { return e.IsField(fHashOK) })
 		}
 		mk := func(gen func(ssa.Instruction) bool) *kit.Flow {
+			// function-agnostic callbacks (callee objects / fields): the corrupt
+			// branch may live in a helper (callee summaries)
 			return (&kit.Flow{P: c.Prog, Fn: h, Entry: true, EdgeKill: openOnCorrupt,
 				Instr: func(ins ssa.Instruction, in bool) bool {
 					if gen(ins) {
 						return true
 					}
 					return in
-				}}).Solve()
+				}}).WithDeep(kit.DefaultDeep, nil).Solve()
 		}
 		closed := mk(func(ins ssa.Instruction) bool { return kit.CallsAny(ins, closePeer, disable) })
 		banned := mk(func(ins ssa.Instruction) bool {
@@ -219,8 +231,8 @@ func runC01Marks(c *kit.Ctx, k *keyer, fHashOK, fError *types.Var, verifyHash *t
 		})
 		// the corrupt edge must exist
 		hasEdge := false
-		for _, b := range h.Blocks {
-			if ifi, ok := b.Instrs[len(b.Instrs)-1].(*ssa.If); ok {
+		c.InstrsDeep(h, kit.DefaultDeep, false, func(ins ssa.Instruction) {
+			if ifi, ok := ins.(*ssa.If); ok {
 				for _, tr := range []bool{true, false} {
 					for _, a := range kit.EdgeAtoms(ifi.Cond, tr) {
 						if openOnCorrupt(a) {
@@ -229,7 +241,7 @@ func runC01Marks(c *kit.Ctx, k *keyer, fHashOK, fError *types.Var, verifyHash *t
 					}
 				}
 			}
-		}
+		})
 		if !hasEdge {
 			c.Bad("R01.5", kit.FuncName(h)+"/corrupt-branch", h.Pos(), "handlePieceWriteDone has no branch on HashOK==false: corrupt sources are not handled")
 		} else {
@@ -241,11 +253,11 @@ func runC01Marks(c *kit.Ctx, k *keyer, fHashOK, fError *types.Var, verifyHash *t
 				"a path from HashOK==false reaches return without banning the peer IP")
 		}
 		// the banned key is the IP of the closed peer
-		kit.Instrs(h, func(ins ssa.Instruction) {
+		c.InstrsDeep(h, kit.DefaultDeep, false, func(ins ssa.Instruction) {
 			if mu, ok := ins.(*ssa.MapUpdate); ok && kit.Canon(mu.Map).IsField(fBanned) {
 				ke := kit.Canon(mu.Key)
 				ok := ke.Kind == "call" && ke.Name == "IP"
-				c.Check(ok, "R01.5", k.key(h, "ban key"), posOf(ins), "ban key is "+ke.String(), "ban key "+ke.String()+" is not the source peer's IP()")
+				c.Check(ok, "R01.5", k.key(ins.Parent(), "ban key"), posOf(ins), "ban key is "+ke.String(), "ban key "+ke.String()+" is not the source peer's IP()")
 			}
 		})
 	}
@@ -436,10 +448,24 @@ func runC01Rest(c *kit.Ctx, k *keyer, fHashOK *types.Var) {
 		fPMC := c.Field("torrent", "torrent", "pieceMessagesC")
 		fWSC := c.Field("torrent", "torrent", "webseedPieceResultC")
 		runObj := c.FuncObj("internal/piecewriter", "(*PieceWriter).Run")
-		suspendFlow := func(fn *ssa.Function, ch *types.Var, gen, kill string) *kit.Flow {
-			return (&kit.Flow{P: c.Prog, Fn: fn, Instr: func(ins ssa.Instruction, in bool) bool {
+		tSuspendChan := derefNamed(fPMC.Type()).Origin()
+		// "channel ch is suspended": function-agnostic (keyed on the channel field
+		// and the method name), so it is evaluated with callee summaries and, at a
+		// spawn that sits in a helper, with caller context.
+		suspendInstr := func(ch *types.Var, gen, kill string) func(ssa.Instruction, bool) bool {
+			return func(ins ssa.Instruction, in bool) bool {
+				// inside the body of the killing method itself (reached through a
+				// callee summary of the call, whose result would otherwise override
+				// the kill below): the fact is gone, whichever channel it is
+				if pf := ins.Parent(); pf.Name() == kill && pf.Signature.Recv() != nil && derefNamed(pf.Signature.Recv().Type()) != nil &&
+					derefNamed(pf.Signature.Recv().Type()).Origin() == tSuspendChan {
+					return false
+				}
 				cc := kit.CallOf(ins)
 				if cc == nil || cc.IsInvoke() || cc.StaticCallee() == nil || len(cc.Args) == 0 {
+					return in
+				}
+				if _, isGo := ins.(*ssa.Go); isGo {
 					return in
 				}
 				if !kit.Canon(cc.Args[0]).IsField(ch) {
@@ -452,35 +478,45 @@ func runC01Rest(c *kit.Ctx, k *keyer, fHashOK *types.Var) {
 					return false
 				}
 				return in
-			}}).Solve()
+			}
 		}
+		suspendFlow := func(fn *ssa.Function, ch *types.Var, gen, kill string) *kit.Flow {
+			return (&kit.Flow{P: c.Prog, Fn: fn, Instr: suspendInstr(ch, gen, kill)}).WithDeep(kit.DefaultDeep, nil).Solve()
+		}
+		wSpec := c.FieldBoolSpec(fWriting, true, kit.DefaultDeep)
+		s1Spec := &kit.Spec{P: c.Prog, Deep: kit.DefaultDeep, Instr: suspendInstr(fPMC, "Suspend", "Resume")}
+		s2Spec := &kit.Spec{P: c.Prog, Deep: kit.DefaultDeep, Instr: suspendInstr(fWSC, "Suspend", "Resume")}
+		nSp := 0
 		for _, s := range sortSites(c.CallSites(runObj)) {
 			if _, isGo := s.Instr.(*ssa.Go); !isGo {
 				continue
 			}
+			nSp++
 			key := k.key(s.Fn, "spawn writer")
-			w := c.FieldBool(s.Fn, fWriting, true)
-			s1 := suspendFlow(s.Fn, fPMC, "Suspend", "Resume")
-			s2 := suspendFlow(s.Fn, fWSC, "Suspend", "Resume")
 			switch {
-			case !w.Before(s.Instr):
+			case !wSpec.Holds(s.Instr, 2):
 				c.Bad("R01.7", key, posOf(s.Instr), "writer spawned without piece.Writing=true on every path")
-			case !s1.Before(s.Instr):
+			case !s1Spec.Holds(s.Instr, 2):
 				c.Bad("R01.7", key, posOf(s.Instr), "writer spawned without suspending pieceMessagesC: a second write can start")
-			case !s2.Before(s.Instr):
+			case !s2Spec.Holds(s.Instr, 2):
 				c.Bad("R01.7", key, posOf(s.Instr), "writer spawned without suspending webseedPieceResultC: a second write can start")
 			default:
 				c.OK("R01.7", key, posOf(s.Instr), "Writing=true and both result channels suspended before the writer starts")
 			}
-			// crash guard: the Writing=true store happens under Writing==false
-			notW := c.FieldBool(s.Fn, fWriting, false)
-			kit.Instrs(s.Fn, func(ins ssa.Instruction) {
-				if v, ok := kit.StoresField(ins, fWriting); ok && kit.Canon(v).IsConstBool(true) {
-					c.Check(notW.Before(ins), "R01.7", k.key(s.Fn, "Writing=true"), posOf(ins),
-						"Writing set only when it was false (double-write guard)", "Writing=true stored without the Writing==false guard")
-				}
-			})
 		}
+		c.Floor("R01.7", "writer spawns", nSp, 2)
+		// crash guard: every Writing=true store, wherever it sits, happens under Writing==false
+		notW := c.FieldBoolSpec(fWriting, false, kit.DefaultDeep)
+		nW := 0
+		for _, st := range fieldStores(c, fWriting) {
+			if !kit.Canon(st.Val).IsConstBool(true) {
+				continue
+			}
+			nW++
+			c.Check(notW.Holds(st.Store, 2), "R01.7", k.key(st.Fn, "Writing=true"), posOf(st.Store),
+				"Writing set only when it was false (double-write guard)", "Writing=true stored without the Writing==false guard")
+		}
+		c.Floor("R01.7", "Writing=true stores", nW, 1)
 		h := c.Func("torrent", "(*torrent).handlePieceWriteDone")
 		r1 := suspendFlow(h, fPMC, "Resume", "Suspend")
 		r2 := suspendFlow(h, fWSC, "Resume", "Suspend")
@@ -497,12 +533,15 @@ func runC01Rest(c *kit.Ctx, k *keyer, fHashOK *types.Var) {
 		h := c.Func("torrent", "(*torrent).handleWebseedPieceResult")
 		fDone := c.Field("internal/piece", "Piece", "Done")
 		runObj := c.FuncObj("internal/piecewriter", "(*PieceWriter).Run")
-		nd := c.FieldBool(h, fDone, false)
+		// every writer spawn reached from the web-seed result handler (directly or
+		// through helpers, evaluated in this handler's calling context) happens
+		// under Done==false
+		nd := c.FieldBoolSpec(fDone, false, kit.DefaultDeep)
 		n := 0
-		kit.Instrs(h, func(ins ssa.Instruction) {
+		nd.VisitDown(h, false, 3, func(ins ssa.Instruction, before bool) {
 			if g, ok := ins.(*ssa.Go); ok && kit.CalleeObj(&g.Call) == runObj {
 				n++
-				c.Check(nd.Before(ins), "R01.8", k.key(h, "spawn writer"), posOf(ins),
+				c.Check(before, "R01.8", k.key(ins.Parent(), "spawn writer (web seed)"), posOf(ins),
 					"web-seed result written only under piece.Done==false", "web-seed result for an already-Done piece may be written again")
 			}
 		})
